@@ -1236,6 +1236,113 @@ theorem C18_cache_imports_sorted (perm : List ImportInfo → List ImportInfo) (h
   · rw [mem_sortBy, (hp _).mem_iff, mem_dedupBy _ importInfoEq_iff]
   · exact ((perm_sortBy strLe _ _).trans (hp _)).nodup_iff.mpr (nodup_dedupBy _ importInfoEq_iff s)
 
+/-! #### the sort key of the cache document's `imports`
+
+`C18_cache_imports_canonical` needs the key to separate the members of the set (`hinj`). For the pinned
+key — the path AS RECORDED — that is not an assumption about the project: every member is made by
+`CacheableImportInfo.from_file`, whose hash is a function of the recorded path
+(`C18_cache_sort_key_injective`), so the list is canonical for EVERY project, links and duplicate
+contents included (`C18_cache_imports_canonical_from_file`). A coarser key (the resolved path, the
+content hash, the file name) is not injective as soon as one file is imported under two names, and then
+the list follows the set's iteration order (`C18_cache_imports_coarse_key_tie`). Which key the code sorts
+on, how a member is made and how the key type compares is Tie A (`tieA_cache_sort_key`). -/
+
+/-- Tie A for the sort key of `make_cacheable_import_info`, in full: `sorted` takes `key=` only (no
+`reverse=`), the key is `lambda info: info.filepath` as written (not `.resolve()`, not `.name`, not the
+hash), the members are `CacheableImportInfo.from_file(symbol.module_spec.origin)`; `from_file` records the
+path it is given and hashes that file; the class is `attrs.frozen` with the two fields, both in `==` and
+in `hash`; `Path(…)` keeps a link / `..` as written (`probe:recorded`) and orders component-wise
+(`probe:order`). -/
+theorem tieA_cache_sort_key :
+    Generated.C18.cacheSortKey =
+      [("sorted-keywords", "key"), ("key", "lambda info: info.filepath"),
+       ("member", "CacheableImportInfo.from_file(symbol.module_spec.origin)"),
+       ("class-decorators", "attrs.frozen"),
+       ("field:filepath", "Path = field(converter=Path, factory=Path)"),
+       ("field:filehash", "str = field(default='')"),
+       ("from_file", "return CacheableImportInfo(filepath=filepath, filehash=hash_file_content(filepath))"),
+       ("eq-fields", "filepath,filehash"), ("hash-fields", "filepath,filehash"),
+       ("probe:recorded", "r/a/c.py|r/a.x/c.py|l/../m.py"),
+       ("probe:order", "/abs/z.py|frozen|r/A/c.py|r/a/B.py|r/a/c.py|r/a-b/c.py|r/a.x/c.py|r/a_b/c.py")] := by
+  decide
+
+/-- The pinned `sorted` is the general one at `key := filepath`. -/
+theorem cacheImports_eq_by (perm : List ImportInfo → List ImportInfo) (s : List ImportInfo) :
+    cacheImports perm s = cacheImportsBy strLe (fun i => i.filepath) perm s := rfl
+
+/-- Every member of the stream is `from_file` of some origin. -/
+theorem mem_cacheInfoStreamOfOrigins {hashOf : Str → Str} {t : List (Option Str)}
+    {originsOf : Str → List (Option Str)} {keys : List Str} {x : ImportInfo}
+    (h : x ∈ cacheInfoStreamOfOrigins hashOf t originsOf keys) : ∃ o, x = infoFromFile hashOf o := by
+  unfold cacheInfoStreamOfOrigins cacheInfoStream at h
+  simp only [List.mem_filterMap, List.mem_append, List.mem_map, List.mem_flatMap, id] at h
+  rcases h with ⟨y, (⟨o, _, rfl⟩ | ⟨_, _, o, _, rfl⟩), hy⟩
+  · cases o with
+    | none => simp at hy
+    | some o => exact ⟨o, by simpa using hy.symm⟩
+  · cases o with
+    | none => simp at hy
+    | some o => exact ⟨o, by simpa using hy.symm⟩
+
+/-- **The sort key is injective on the recorded infos.** Two members of the import set with the same
+recorded path are the same member — for every project (links, copies, one file under two module names),
+every order of the contexts and every hash function. -/
+theorem C18_cache_sort_key_injective (hashOf : Str → Str) (t : List (Option Str))
+    (originsOf : Str → List (Option Str)) (keys : List Str) (a b : ImportInfo)
+    (ha : a ∈ cacheInfoStreamOfOrigins hashOf t originsOf keys)
+    (hb : b ∈ cacheInfoStreamOfOrigins hashOf t originsOf keys)
+    (hk : a.filepath = b.filepath) : a = b := by
+  obtain ⟨oa, rfl⟩ := mem_cacheInfoStreamOfOrigins ha
+  obtain ⟨ob, rfl⟩ := mem_cacheInfoStreamOfOrigins hb
+  simp only [infoFromFile] at hk
+  rw [hk]
+
+/-- **The `imports` list is canonical, with no hypothesis on the project**: whatever the iteration
+orders of the two sets and whatever the order the contexts were walked in, the same origins give the
+same list. -/
+theorem C18_cache_imports_canonical_from_file (perm₁ perm₂ : List ImportInfo → List ImportInfo)
+    (hp₁ : ∀ l, (perm₁ l).Perm l) (hp₂ : ∀ l, (perm₂ l).Perm l) (hashOf : Str → Str)
+    (t : List (Option Str)) (originsOf : Str → List (Option Str)) (keys₁ keys₂ : List Str)
+    (hk : keys₁.Perm keys₂) :
+    cacheImports perm₁ (cacheInfoStreamOfOrigins hashOf t originsOf keys₁)
+      = cacheImports perm₂ (cacheInfoStreamOfOrigins hashOf t originsOf keys₂) := by
+  unfold cacheInfoStreamOfOrigins
+  exact C18_cache_imports_bfs_order_free perm₁ perm₂ hp₁ hp₂ _ _ keys₁ keys₂ hk
+    (fun a b ha hb => C18_cache_sort_key_injective hashOf t originsOf keys₁ a b ha hb)
+
+/-- **A key that ties two members makes the list follow the set's iteration order**: for ANY key and
+order, a set holding two different infos with equal keys is printed in two different ways under two
+iteration orders. (So `key=lambda info: info.filepath.resolve()` — one file imported through a link —,
+`key=filehash` — two copies —, `key=filepath.name` — `a/util.py`, `b/util.py` — are all not canonical.) -/
+theorem C18_cache_imports_coarse_key_tie {κ : Type} (le : κ → κ → Bool) (key : ImportInfo → κ)
+    (a b : ImportInfo) (hne : a ≠ b) (htie : key a = key b) (hrefl : le (key a) (key a) = true) :
+    cacheImportsBy le key id [a, b] = [a, b] ∧ cacheImportsBy le key List.reverse [a, b] = [b, a]
+    ∧ cacheImportsBy le key id [a, b] ≠ cacheImportsBy le key List.reverse [a, b] := by
+  have hd : dedupBy importInfoEq [a, b] = [a, b] := by
+    have : importInfoEq a b = false := by
+      cases h : importInfoEq a b with
+      | false => rfl
+      | true => exact absurd ((importInfoEq_iff a b).mp h) hne
+    simp [dedupBy, this]
+  have h1 : cacheImportsBy le key id [a, b] = [a, b] := by
+    simp [cacheImportsBy, hd, sortBy, insertBy, ← htie, hrefl]
+  have h2 : cacheImportsBy le key List.reverse [a, b] = [b, a] := by
+    simp [cacheImportsBy, hd, sortBy, insertBy, ← htie, hrefl]
+  refine ⟨h1, h2, ?_⟩
+  rw [h1, h2]
+  intro h
+  exact hne (List.cons.inj h).1
+
+/-- (test, by evaluation) the reviewers' project: `real_mod.py` and a link `alias_one.py` to it, sorted
+on the RESOLVED path (`resolveOf`): two iteration orders, two lists; sorted on the recorded path: one. -/
+theorem C18_cex_cache_imports_resolved_key :
+    let real : ImportInfo := ⟨str "/p/real_mod.py", str "h"⟩
+    let link : ImportInfo := ⟨str "/p/alias_one.py", str "h"⟩
+    let resolveOf : ImportInfo → Str := fun _ => str "/p/real_mod.py"
+    cacheImportsBy strLe resolveOf id [real, link] ≠ cacheImportsBy strLe resolveOf List.reverse [real, link]
+    ∧ cacheImports id [real, link] = cacheImports List.reverse [real, link] := by
+  decide
+
 end ImportBfs
 
 /-! ### The full statement (kept visible; false on the pinned tree) -/
